@@ -27,7 +27,7 @@ VARIANTS = ('VList', 'VGen', 'VFuture')
 
 
 def expected_of(behs):
-    return [(i, b in ('BSyncOk', 'BLaterOk')) for i, b in enumerate(behs)]
+    return [(i, b in P.OK) for i, b in enumerate(behs)]
 
 
 def oracle(ctx, r, report=True):
@@ -48,6 +48,14 @@ def oracle(ctx, r, report=True):
         out.append((tag + '.caller-blocks-forever', 'caller waits on the condition, nothing can wake it', 'C32_one_per_statement'))
     if r.session.peak > conc:
         out.append((tag + '.in-flight-exceeds-concurrency', 'peak in-flight %d > concurrency %d' % (r.session.peak, conc), 'C32_concurrency_bound'))
+    for t in r.trace:
+        ids = [i for i, _ in t['results']] if t else []
+        if len(ids) != len(set(ids)):
+            out.append((tag + '.result-queued-twice', 'the executor queued two results for one statement: %r' % (t['results'],), 'C32_one_per_statement'))
+            break
+    for rows in r.paged_rows:
+        if len(rows) != 3 or rows[1] != rows[0] + 1000 or rows[2] != rows[0] + 2000:
+            out.append((tag + '.paged-result-damaged', 'paging through a returned ResultSet gave %r' % (rows,), 'C32_one_per_statement'))
     if len(set(r.session.calls)) != len(r.session.calls):
         out.append((tag + '.statement-executed-twice', 'execute_async calls %r' % (r.session.calls,), 'C32_one_per_statement'))
     for name, i in r.escaped:
@@ -172,9 +180,18 @@ def configs(ctx):
             for conc in range(1, 5):
                 k += 1
                 out.append((list(behs), conc, k % 2 == 0, VARIANTS[k % 3], 100, False, 1))
+    # results with several pages, read by the consumer while execution is still running (real ResponseFuture/ResultSet)
+    pool = (P.PAGED, 'BLaterOk', 'BLaterErr', 'BSyncOk')
+    out.append(([P.PAGED, 'BLaterOk', 'BLaterOk'], 1, False, 'VGen', 100, False, 'all'))
+    out.append((['BLaterOk', P.PAGED, P.PAGED], 2, True, 'VGen', 100, False, 'all'))
+    for behs in itertools.product(pool, repeat=3):
+        if P.PAGED in behs:
+            for conc in (1, 2):
+                for v in VARIANTS:
+                    out.append((list(behs), conc, v == 'VList', v, 100, False, 1 if quick else 3))
     for _ in range(120 if quick else 1200):
         n = rng.randint(3, 6)
-        behs = [rng.choice(P.BEHS + ['BLaterOk', 'BLaterErr', 'BLaterOk']) for _ in range(n)]
+        behs = [rng.choice(P.BEHS + ['BLaterOk', 'BLaterErr', P.PAGED, P.PAGED]) for _ in range(n)]
         out.append((behs, rng.randint(1, n), rng.random() < 0.5, rng.choice(VARIANTS), rng.choice((100, 100, 1, 2, 3)), rng.random() < 0.3,
                     2 if quick else 3))
     return out, nmax_all
@@ -186,6 +203,23 @@ def run(ctx):
         ctx.coqchk('Props/C32.v')
     ctx.trust('C32 deterministic scheduler + fake session/futures (lib/vf/pgconc_concurrent.py): one logical thread runs at a time, '
               'switches only at Condition region boundaries')
+    # lock-region audit: the async variant's Future is touched only under the executor's condition (the model's step
+    # granularity rests on it).  If it fails, two real threads under the line-granular scheduler look for the schedule.
+    src = open(os.path.join(core.REPO, 'cassandra/concurrent.py')).read()
+    probs = P.audit_future_lock(src)
+    ctx.extra['lock_audit'] = probs or 'ok: every self.future access of ConcurrentExecutorFutureResults is inside `with self._condition`'
+    ctx.trust('lock-region audit of ConcurrentExecutorFutureResults (lib/vf/pgconc_concurrent.py:audit_future_lock)')
+    if probs:
+        ctx.proof_broken.append(('atomicity-audit', '; '.join(probs)))
+        found = P.detsched_search(900)
+        if found:
+            info, what = found
+            ctx.violation('async.future-set-twice.unlocked-check-then-set',
+                          'two real threads (caller in execute_concurrent_async, io thread delivering the only result), switched at '
+                          'source-line granularity: caller runs to its wait, io thread %d lines, caller %d lines, io thread to the end, caller to '
+                          'the end: %s' % (info['k2'], info['k3'], what),
+                          case={'detsched': info['schedule'], 'k2': info['k2'], 'k3': info['k3']}, kind='interleaving',
+                          expected='future completed exactly once', actual=what, theorem='C32_future_once')
     runs = []
     cdir = os.path.join(core.VERIF, 'corpus', 'C32')
     if os.path.isdir(cdir):
@@ -213,7 +247,7 @@ def run(ctx):
     ctx.extra['history_cap_hit'] = capped
     ctx.rule = ('every behaviour vector over {sync raise, sync ok, sync err, later ok, later err} with n <= %d statements (quick: n = 2, thorough: n = 3, 4 under random histories) x concurrency 1..n x '
                 'fail-fast on/off x {list, generator, async} x EVERY interleaving of lock regions (stateless DFS), plus random configurations '
-                'with n <= 6 (incl. max_error_recursion 1..3 to reach the session.submit path, execute_concurrent_with_args) under random '
+                'with n <= 6 (incl. max_error_recursion 1..3 to reach the session.submit path, execute_concurrent_with_args, statements whose result has three pages -- real ResponseFuture/ResultSet -- read by the consumer of the generator while execution continues) under random '
                 'interleavings; non-trivial = distinct (config, history) with at least one statement completing later' % nmax_all)
     cases, meta = [], []
     for r in runs:
@@ -245,6 +279,15 @@ def run(ctx):
 
 def replay(ctx, rp):
     c = rp.get('case') or {}
+    if 'detsched' in c:
+        for attempt in range(12):        # real threads: the wake-up of the waiting caller is timing dependent
+            errs, trace = P.detsched_replay(c['detsched'])
+            if 'InvalidStateError' in errs:
+                print('detsched replay (attempt %d): caller/io errors %r; last lines %r' % (attempt + 1, errs, trace[-12:]))
+                print('VIOLATION property=C32 replay=%s' % ctx.replay_path)
+                return 1
+        print('not reproduced')
+        return 0
     if 'behs' not in c:
         print('nothing to replay: %s' % rp.get('theorem'))
         return 1
